@@ -344,7 +344,12 @@ func SubscribeWithReplay[T any](
 		offset := bus.lastOffset
 		bus.storeMu.RUnlock()
 
-		subStore.SaveOffset(ctx, subscriptionID, offset)
+		// An empty lastOffset means this bus has not appended anything yet
+		// (e.g. its first append failed): saving it would move the
+		// subscription back to the oldest event.
+		if offset != OffsetOldest {
+			subStore.SaveOffset(ctx, subscriptionID, offset)
+		}
 	}
 
 	return Subscribe(bus, wrappedHandler, opts...)
